@@ -9,6 +9,7 @@ import (
 	"io"
 	"math"
 	"sort"
+	"strings"
 	"time"
 
 	"pipelined.dev/signal"
@@ -196,20 +197,80 @@ func sortFloatCells(cells []uint64, k Kind) {
 
 // ---------- running kernels on the implementation ----------
 
-// runKernel converts the cells xs (kind sk) into kind dk through one-channel buffers.
-func runKernel(sk, dk Kind, xs []uint64) []uint64 {
+// runKernelOpt converts the cells xs (kind sk) into kind dk through one-channel buffers. The destination
+// is pre-filled with a non-zero pattern: a conversion has to overwrite every position, also with zeros.
+// named: the buffers are of the defined types N<kind> (same formats, so the same results are required).
+// A panic of the conversion is returned as a message, never propagated.
+func runKernelOpt(sk, dk Kind, xs []uint64, named bool) ([]uint64, string) {
 	n := len(xs)
-	src := Alloc(sk, false, signal.Allocator{Channels: 1, Length: n, Capacity: n})
-	dst := Alloc(dk, false, signal.Allocator{Channels: 1, Length: n, Capacity: n})
+	src := Alloc(sk, named, signal.Allocator{Channels: 1, Length: n, Capacity: n})
+	dst := Alloc(dk, named, signal.Allocator{Channels: 1, Length: n, Capacity: n})
+	fill := small(dk, 85)
 	for i, x := range xs {
 		src.SetSample(i, x)
+		dst.SetSample(i, fill)
 	}
-	convCall(sk, dk)(src, dst)
+	conv := convCall(sk, dk)
+	if named {
+		conv = convCallNamed(sk, dk)
+	}
+	p := try(func() { conv(src, dst) })
 	out := make([]uint64, n)
 	for i := range out {
 		out[i] = dst.Sample(i)
 	}
+	return out, p
+}
+
+func runKernel(sk, dk Kind, xs []uint64) []uint64 {
+	out, p := runKernelOpt(sk, dk, xs, false)
+	if p != "" {
+		kernelPanics = append(kernelPanics, fmt.Sprintf("kpanic %s %s %s builtin %s", convName(sk, dk), sk, dk, strings.ReplaceAll(p, " ", "_")))
+	}
 	return out
+}
+
+// panics of conversion kernels on valid buffers, flushed into the transcript by the emit functions
+var kernelPanics []string
+
+func (g *Kern) flushPanics() {
+	for _, l := range kernelPanics {
+		fmt.Fprintln(g.out, l)
+		g.st.lines++
+		g.st.branch("kernel-panic")
+	}
+	kernelPanics = nil
+}
+
+// namedCheck runs the same kernel through buffers of the defined types; when the results differ from
+// the builtin ones (or the call panics) the named run is emitted as a kernel sequence of its own, so
+// that the model and the predicates judge it.
+func (g *Kern) namedCheck(sk, dk Kind, xs, ys []uint64) {
+	zs, p := runKernelOpt(sk, dk, xs, true)
+	fn := convName(sk, dk)
+	if p != "" {
+		fmt.Fprintf(g.out, "kpanic %s %s %s named %s\n", fn, sk, dk, strings.ReplaceAll(p, " ", "_"))
+		g.st.lines++
+		g.st.branch("kernel-panic")
+		return
+	}
+	same := true
+	for i := range ys {
+		if zs[i] != ys[i] {
+			same = false
+			break
+		}
+	}
+	if same {
+		g.st.branch("named-types-identical")
+		return
+	}
+	g.st.branch("named-types-differ")
+	fmt.Fprintf(g.out, "kseq %s %s %s\n", fn, sk, dk)
+	for i, x := range xs {
+		fmt.Fprintf(g.out, "k %s %s\n", cellString(x, sk), cellString(zs[i], dk))
+	}
+	g.st.lines += len(xs) + 1
 }
 
 // runKernelShaped is runKernel through ch-channel buffers whose last frame is partial when len(xs) is
@@ -219,14 +280,18 @@ func runKernelShaped(sk, dk Kind, xs []uint64, ch int) []uint64 {
 	frames, rem := n/ch, n%ch
 	src := Alloc(sk, false, signal.Allocator{Channels: ch, Length: frames, Capacity: frames + 1})
 	dst := Alloc(dk, false, signal.Allocator{Channels: ch, Length: frames, Capacity: frames + 1})
+	fill := small(dk, 85)
 	for i := 0; i < frames*ch; i++ {
 		src.SetSample(i, xs[i])
+		dst.SetSample(i, fill)
 	}
 	for i := 0; i < rem; i++ {
 		src.AppendSample(xs[frames*ch+i])
-		dst.AppendSample(0)
+		dst.AppendSample(fill)
 	}
-	convCall(sk, dk)(src, dst)
+	if p := try(func() { convCall(sk, dk)(src, dst) }); p != "" {
+		kernelPanics = append(kernelPanics, fmt.Sprintf("kpanic %s %s %s builtin-ch%d %s", convName(sk, dk), sk, dk, ch, strings.ReplaceAll(p, " ", "_")))
+	}
 	out := make([]uint64, n)
 	for i := range out {
 		out[i] = dst.Sample(i)
@@ -236,6 +301,7 @@ func runKernelShaped(sk, dk Kind, xs []uint64, ch int) []uint64 {
 
 func (g *Kern) emitKShaped(sk, dk Kind, xs []uint64, ch int) {
 	ys := runKernelShaped(sk, dk, xs, ch)
+	g.flushPanics()
 	fn := convName(sk, dk)
 	fmt.Fprintf(g.out, "kseq %s %s %s\n", fn, sk, dk)
 	for i, x := range xs {
@@ -254,6 +320,8 @@ type Kern struct {
 
 func (g *Kern) emitK(sk, dk Kind, xs []uint64) {
 	ys := runKernel(sk, dk, xs)
+	g.flushPanics()
+	defer g.namedCheck(sk, dk, xs, ys)
 	fn := convName(sk, dk)
 	fmt.Fprintf(g.out, "kseq %s %s %s\n", fn, sk, dk)
 	for i, x := range xs {
@@ -271,6 +339,7 @@ func (g *Kern) emitK(sk, dk Kind, xs []uint64) {
 func (g *Kern) emitRT(sk, mk Kind, xs []uint64) {
 	ys := runKernel(sk, mk, xs)
 	zs := runKernel(mk, sk, ys)
+	g.flushPanics()
 	fmt.Fprintf(g.out, "rtseq %s %s %s %s\n", convName(sk, mk), convName(mk, sk), sk, mk)
 	for i, x := range xs {
 		fmt.Fprintf(g.out, "rt %s %s %s\n", cellString(x, sk), cellString(ys[i], mk), cellString(zs[i], sk))
